@@ -5,6 +5,7 @@ import Ptn.C16.Value
 import Ptn.C16.ValueDemo
 import Ptn.C16.ValueLoop
 import Ptn.C16.LoopDemo
+import Ptn.C16.TensorProduct
 /-! Property theorems for C16. Only property theorems and non-vacuity examples live here. -/
 namespace Ptn.C16
 
@@ -541,5 +542,42 @@ example : sumPairs dim (Ttndo.physOuts (Ttndo.ketTree st)) (fun ρ =>
         (Ttndo.ketVec kvD (Ttndo.ketTree st)).eval dim π * (opExpr ovD opKids (Ttndo.ketTree st)).eval dim π) ρ *
       (Ttndo.braVec bvD (Ttndo.ketTree st)).eval dim ρ) (fun _ => 0) = 16274 := by
   decide
+
+/-! ## Tensor-product expectation values (`tensor_product_expectation_value`, `absorb_into_open_legs`) -/
+
+open Ptn.C04 in
+/-- **One absorption, every node shape.**  `absorb_into_open_legs` on the ket copy `k` (any parent, any number of
+children) with a single-site operator (axes output, input) never raises; the operator's INPUT leg is bound to the
+ket copy's physical leg, its OUTPUT leg takes the physical leg's place as the last axis and the virtual legs keep
+their order ("the leg ordering was not changed here"). -/
+theorem absorb_graph (k : Nat) (node : Node) :
+    Ttndo.absorbIntoOpenLegs node (gKetT k node) (Ttndo.siteOpT k) =
+      some ⟨node.nbrs.map (Leg.gKet k) ++ [Leg.gOpOut k], [(Leg.gKetPhys k, Leg.gOpIn k)]⟩ :=
+  Ttndo.absorbIntoOpenLegs_gKetT k node
+
+/-- **The empty product is the trace** (every network). -/
+theorem tensor_product_empty_is_trace (nd : Ptn.C04.Net) :
+    Ttndo.tensorProductExpectationValue nd [] = Ttndo.traceTtndo nd := rfl
+
+open Ptn.C04 in
+/-- **The calculus is positional**: `tensordot` after renaming the legs of both operands by ANY map is the renamed
+`tensordot` (success, legs and record) — the contraction routines never look at a leg's name, so the trace of the
+network whose ket tensor at a site has the operator's output leg as its last axis is the renamed trace. -/
+theorem tensordot_positional (f : Leg → Leg) (a b : T) (ia ib : List Nat) :
+    tensordot (Ttndo.T.relabel f a) (Ttndo.T.relabel f b) ia ib = (tensordot a b ia ib).map (Ttndo.T.relabel f) :=
+  Ttndo.tensordot_relabel f a b ia ib
+
+open Ptn.C04 in
+/-- **`tensor_product_graph`, decided per tree (PARTIAL: not for all trees).**  On the state tree `0 — (1, 2 — 3)` with
+factors on the sites 3, 0 (dict order), on one site, on all sites and on none: the routine never raises, leaves no
+free leg, and its record is `Ttndo.tpSpec`: the trace record with the operator's output leg in the place of the ket
+physical leg at exactly the named sites, one pair (ket physical leg, operator input) per factor — for ALL factors —
+and every site not named untouched.  Missing for the for-all-trees statement: the lift of `tensordot_positional`
+through every routine of `trace_ttndo` (the harness compares the record of every generated case instead). -/
+theorem tensor_product_graph_partial :
+    let kt := Ttndo.ketTree (.node 0 [.node 1 [], .node 2 [.node 3 []]])
+    ∀ sites ∈ [[7, 1], [5], [1, 3, 5, 7], []],
+      Ttndo.tpRecordOk kt sites = true := by
+  decide +kernel
 
 end Ptn.C16
